@@ -167,6 +167,12 @@ def params_for(draw, cmd, n, pool, wild=False):
         elif cmd != "WeightedSum" and sum(w) == 0:
             w = list(w)
             w[-1] = w[-1] + 1
+        elif draw(st.integers(0, 7)) == 0 and sum(w) != 0:
+            # shares written with a few decimals: they add up to nearly (not exactly) one
+            total, digits = sum(w), draw(st.integers(3, 8))
+            shares = [round(x / total, digits) for x in w]
+            if sum(shares) != 0:
+                w = shares
         p["Weights"] = w
     elif cmd == "Normalize":
         if draw(st.booleans()):
